@@ -51,6 +51,14 @@ LEAVES = [
     dict(cname='get_hdfs_sector_count', lean='get_hdfs_sector_count', file='dfs/identify.cc', ptypes={'sec1': ARR}),
     dict(cname='total_sectors', lean='geometry_total_sectors', file='dfs/geometry.cc', members={'cylinders': 'cylinders', 'heads': 'heads', 'sectors': 'sectors'}, nparams=0),
     dict(cname='print_target_line_number', lean='target_line_number', file='basic/lines.c', upto_var='n'),
+    # flux containers: the small integer functions of img_hfe.cc / img_hxcmfm.cc / track.h
+    dict(cname='reverse_bit_order', lean='reverse_bit_order', file='dfs/img_hfe.cc'),
+    dict(cname='track_len', lean='pictrack_len', file='dfs/img_hfe.cc', members={'track_len_': 'track_len_'}, nparams=0),
+    dict(cname='is_hfe3_opcode', lean='is_hfe3_opcode', file='dfs/img_hfe.cc', ret='Bool'),
+    dict(cname='le_word', lean='hfe_le_word', file='dfs/img_hfe.cc', ptypes={'d': ARR}, mangled='PKh'),
+    dict(cname='le_word', lean='hxc_le_word', file='dfs/img_hxcmfm.cc', ptypes={'d': ARR}),
+    dict(cname='le_quad', lean='hxc_le_quad', file='dfs/img_hxcmfm.cc', ptypes={'d': ARR}),
+    dict(cname='raw_pos', lean='bitstream_raw_pos', file='dfs/img_hfe.cc', members={'stride_': 'stride_', 'first_': 'first_'}),
 ]
 
 
